@@ -523,6 +523,111 @@ static void report_captured (int lineno) {
   }
 }
 
+
+/* ------------------------------------------------------------------ round 3: per-context tables (model coq/C13/Tab.v)
+
+   tables <slot>       one line: number of types, type-array length, number of table (non-immediate) symbols, number of
+                       modules, identities (addresses of the globals vector / symbol table vector / type array), the
+                       heap chain as base:size, and the verdict of the TABLE audit: every pointer stored in the
+                       context's globals vector, type array, type objects (name, cpl vector and its entries, tag ==
+                       index), symbol buckets (pairs and symbols) designates an object inside the context's own heaps
+   regtype <slot> <name> <parent id|->   sexp_register_simple_type; reports the id (tag) the new type got
+   intern <slot> <name>                  sexp_intern; reports the bucket the symbol sits in and whether it was new
+   define <slot> <name> <int>            sexp_intern + sexp_env_define in the context's top-level environment
+   lookup <slot> <name>                  value of the global (the symbol is looked up WITHOUT interning it)
+   find <slot> <name>                    is a symbol of that name in the context's table (no interning)
+   consts                                SEXP_NUM_CORE_TYPES and SEXP_SYMBOL_TABLE_SIZE of the build
+   signals (model coq/C13/Sig.v):
+   raise <signum>                        kill(getpid(), signum) from the driving thread
+   sigstate <slot>                       pending mask SEXP_G_THREADS_SIGNALS and the value of c13-sig-got
+   blocking I/O in a green thread:
+   pipe <slot> <name>                    a pipe whose non-blocking read end is bound to <name> as an input port
+   feed <slot> <char>                    one byte into the write end of that slot's pipe */
+
+static int pipe_wfd[MAXS];
+
+static long count_symbols (sexp ctx) {
+  sexp *tab = sexp_context_symbols(ctx), ls;
+  long n = 0;
+  int i;
+  for (i = 0; i < SEXP_SYMBOL_TABLE_SIZE; i++)
+    for (ls = tab[i]; sexp_pairp(ls); ls = sexp_cdr(ls)) n++;
+  return n;
+}
+
+static int bucket_of_symbol (sexp ctx, sexp sym) {
+  sexp *tab = sexp_context_symbols(ctx), ls;
+  int i;
+  for (i = 0; i < SEXP_SYMBOL_TABLE_SIZE; i++)
+    for (ls = tab[i]; sexp_pairp(ls); ls = sexp_cdr(ls))
+      if (sexp_car(ls) == sym) return i;
+  return -1;
+}
+
+static void tables_audit (sexp ctx, char *why, size_t n) {
+  sexp g = sexp_context_globals(ctx), ta, t, cpl, ls, *tab;
+  long i, k, nt = sexp_context_num_types(ctx);
+  snprintf(why, n, "ok");
+#define OWN(x, what, idx) do { if (!(x) || !sexp_pointerp(x) || !in_own_heaps(ctx, (x))) { snprintf(why, n, "FOREIGN:%s-%ld", what, (long)(idx)); return; } } while (0)
+  OWN(g, "globals-vector", 0);
+  for (i = 0; i < SEXP_G_NUM_GLOBALS; i++) {
+    sexp x = sexp_vector_data(g)[i];
+    if (x && sexp_pointerp(x) && !in_own_heaps(ctx, x)) { snprintf(why, n, "FOREIGN:global-%ld", i); return; }
+  }
+  OWN(sexp_global(ctx, SEXP_G_SYMBOLS), "symbol-table-vector", 0);
+  ta = sexp_global(ctx, SEXP_G_TYPES);
+  OWN(ta, "type-array", 0);
+  if ((long)sexp_vector_length(ta) < nt) { snprintf(why, n, "BAD:type-array-shorter-than-num-types"); return; }
+  for (i = 0; i < nt; i++) {
+    t = sexp_vector_data(ta)[i];
+    OWN(t, "type-object", i);
+    if (!sexp_typep(t) || (long)sexp_type_tag(t) != i) { snprintf(why, n, "BAD:type-%ld-has-tag-%ld", i, (long)sexp_type_tag(t)); return; }
+    if (sexp_type_name(t) && sexp_pointerp(sexp_type_name(t))) OWN(sexp_type_name(t), "type-name", i);
+    cpl = sexp_type_cpl(t);
+    if (cpl && sexp_pointerp(cpl)) {
+      OWN(cpl, "type-cpl-vector", i);
+      if (sexp_vectorp(cpl)) {
+        for (k = 0; k < (long)sexp_vector_length(cpl); k++) {
+          sexp a = sexp_vector_data(cpl)[k];
+          OWN(a, "type-cpl-entry-of-type", i);
+          if (!sexp_typep(a) || (long)sexp_type_tag(a) >= nt || sexp_vector_data(ta)[sexp_type_tag(a)] != a) {
+            snprintf(why, n, "BAD:cpl-entry-of-type-%ld-not-in-this-table", i); return;
+          }
+        }
+        if (sexp_vector_length(cpl) > 0 && sexp_vector_data(cpl)[sexp_vector_length(cpl) - 1] != t) {
+          snprintf(why, n, "BAD:cpl-of-type-%ld-does-not-end-in-itself", i); return;
+        }
+      }
+    }
+  }
+  tab = sexp_context_symbols(ctx);
+  for (i = 0; i < SEXP_SYMBOL_TABLE_SIZE; i++)
+    for (ls = tab[i]; sexp_pairp(ls); ls = sexp_cdr(ls)) {
+      OWN(ls, "symbol-bucket-pair", i);
+      OWN(sexp_car(ls), "symbol-in-bucket", i);
+    }
+#undef OWN
+}
+
+static void report_tables (sexp ctx, int lineno, const char *slot) {
+  char why[200];
+  sexp_heap h;
+  long nmod = -1;
+  sexp menv = sexp_global(ctx, SEXP_G_META_ENV);
+  if (menv && sexp_envp(menv)) {
+    sexp r = sexp_eval_string(ctx, "(length *modules*)", -1, menv);
+    if (sexp_fixnump(r)) nmod = sexp_unbox_fixnum(r);
+  }
+  tables_audit(ctx, why, sizeof(why));
+  fprintf(report, "O\t%d\ttables\t%s\tnt=%ld cap=%ld nsym=%ld nmod=%ld glob=%lx symtab=%lx tarr=%lx audit=%s heaps=",
+          lineno, slot, (long)sexp_context_num_types(ctx), (long)sexp_context_type_array_size(ctx), count_symbols(ctx), nmod,
+          (unsigned long)sexp_context_globals(ctx), (unsigned long)sexp_global(ctx, SEXP_G_SYMBOLS),
+          (unsigned long)sexp_global(ctx, SEXP_G_TYPES), why);
+  for (h = sexp_context_heap(ctx); h; h = h->next)
+    fprintf(report, "%lx:%lx%s", (unsigned long)h->data, (unsigned long)h->size, h->next ? "," : "");
+  fprintf(report, "\n");
+}
+
 static int run_ops (const char *script, const char *prefix) {
   FILE *f = fopen(script, "r");
   char *line = NULL, path[600];
@@ -552,6 +657,13 @@ static int run_ops (const char *script, const char *prefix) {
     if (a2) { *a2++ = 0; if (strcmp(op, "eval") != 0) { a3 = strchr(a2, '\t'); if (a3) *a3++ = 0; } }
     if (strcmp(op, "fds") == 0) { report_fds(lineno); fflush(report); continue; }
     if (strcmp(op, "maps") == 0) { report_maps(lineno); fflush(report); continue; }
+    if (strcmp(op, "consts") == 0) { fprintf(report, "O\t%d\tconsts\t-\tncore=%d symtab=%d\n", lineno, (int)SEXP_NUM_CORE_TYPES, (int)SEXP_SYMBOL_TABLE_SIZE); fflush(report); continue; }
+    if (strcmp(op, "raise") == 0 && a1) {
+      int r = kill(getpid(), atoi(a1));
+      fprintf(report, "O\t%d\traise\t-\t%s\n", lineno, r == 0 ? "ok" : "ERR:kill");
+      fflush(report);
+      continue;
+    }
     if (!a1) { fprintf(report, "O\t%d\t%s\t-\tERR:bad-line\n", lineno, op); continue; }
     if (strcmp(op, "new") == 0) {
       sexp ctx;
@@ -595,6 +707,83 @@ static int run_ops (const char *script, const char *prefix) {
         sexp r = sexp_destroy_context(slots[s]);
         slots[s] = NULL;
         fprintf(report, "O\t%d\tdestroy\t%s\t%s\n", lineno, a1, r == SEXP_FALSE ? "ERR:destroy-returned-false" : "ok");
+      } else if (strcmp(op, "tables") == 0) {
+        report_tables(slots[s], lineno, a1);
+      } else if (strcmp(op, "regtype") == 0 && a2) {
+        sexp ctx = slots[s], parent = NULL;
+        sexp_gc_var2(nm, ty);
+        sexp_gc_preserve2(ctx, nm, ty);
+        if (a3 && a3[0] == '@') {           /* parent given by name: the newest type of that name in THIS context's table */
+          long k;
+          for (k = (long)sexp_context_num_types(ctx) - 1; k >= 0 && !parent; k--) {
+            sexp t = sexp_type_by_index(ctx, k);
+            if (t && sexp_typep(t) && sexp_stringp(sexp_type_name(t)) && strcmp(sexp_string_data(sexp_type_name(t)), a3 + 1) == 0) parent = t;
+          }
+        } else if (a3 && a3[0] != '-' && atol(a3) >= 0 && atol(a3) < (long)sexp_context_num_types(ctx))
+          parent = sexp_type_by_index(ctx, atol(a3));
+        nm = sexp_c_string(ctx, a2, -1);
+        ty = sexp_register_simple_type(ctx, nm, parent ? parent : SEXP_FALSE, SEXP_NULL);
+        if (sexp_typep(ty))
+          fprintf(report, "O\t%d\tregtype\t%s\tid=%ld own=%d\n", lineno, a1, (long)sexp_type_tag(ty), in_own_heaps(ctx, ty));
+        else
+          fprintf(report, "O\t%d\tregtype\t%s\tERR:not-a-type\n", lineno, a1);
+        sexp_gc_release2(ctx);
+      } else if (strcmp(op, "intern") == 0 && a2) {
+        sexp ctx = slots[s], sym;
+        long before = count_symbols(ctx);
+        sym = sexp_intern(ctx, a2, -1);
+        if (sexp_lsymbolp(sym))
+          fprintf(report, "O\t%d\tintern\t%s\tbucket=%d fresh=%ld own=%d\n", lineno, a1, bucket_of_symbol(ctx, sym),
+                  count_symbols(ctx) - before, in_own_heaps(ctx, sym));
+        else
+          fprintf(report, "O\t%d\tintern\t%s\tERR:not-a-table-symbol\n", lineno, a1);
+      } else if (strcmp(op, "define") == 0 && a2 && a3) {
+        sexp ctx = slots[s];
+        sexp_gc_var1(sym);
+        sexp_gc_preserve1(ctx, sym);
+        sym = sexp_intern(ctx, a2, -1);
+        sexp_env_define(ctx, sexp_context_env(ctx), sym, sexp_make_fixnum(atol(a3)));
+        sexp_gc_release1(ctx);
+        fprintf(report, "O\t%d\tdefine\t%s\tok\n", lineno, a1);
+      } else if (strcmp(op, "lookup") == 0 && a2) {
+        sexp ctx = slots[s], sym = find_symbol(ctx, a2), v = NULL;
+        if (sym) v = sexp_env_ref(ctx, sexp_context_env(ctx), sym, NULL);
+        if (v && sexp_fixnump(v)) fprintf(report, "O\t%d\tlookup\t%s\t%ld\n", lineno, a1, (long)sexp_unbox_fixnum(v));
+        else fprintf(report, "O\t%d\tlookup\t%s\t%s\n", lineno, a1, v ? "other" : "unbound");
+      } else if (strcmp(op, "find") == 0 && a2) {
+        fprintf(report, "O\t%d\tfind\t%s\t%d\n", lineno, a1, find_symbol(slots[s], a2) ? 1 : 0);
+      } else if (strcmp(op, "sigstate") == 0) {
+        sexp ctx = slots[s];
+        char *txt;
+        sexp_gc_var1(r);
+        sexp_gc_preserve1(ctx, r);
+        r = eval_all(ctx, "c13-sig-got");
+        txt = show(ctx, r);
+        sexp_gc_release1(ctx);
+#if SEXP_USE_GREEN_THREADS
+        fprintf(report, "O\t%d\tsigstate\t%s\tpending=%ld got=%s\n", lineno, a1, (long)sexp_unbox_fixnum(sexp_global(ctx, SEXP_G_THREADS_SIGNALS)), txt);
+#else
+        fprintf(report, "O\t%d\tsigstate\t%s\tpending=0 got=%s\n", lineno, a1, txt);
+#endif
+        free(txt);
+      } else if (strcmp(op, "pipe") == 0 && a2) {
+        sexp ctx = slots[s];
+        int pfd[2];
+        if (pipe(pfd) == 0) {
+          sexp_gc_var3(fileno, port, sym);
+          sexp_gc_preserve3(ctx, fileno, port, sym);
+          fcntl(pfd[0], F_SETFL, fcntl(pfd[0], F_GETFL) | O_NONBLOCK);   /* a read blocks the green thread only */
+          fileno = sexp_make_fileno(ctx, sexp_make_fixnum(pfd[0]), SEXP_FALSE);
+          port = sexp_open_input_file_descriptor(ctx, NULL, 2, fileno, SEXP_FALSE);
+          sym = sexp_intern(ctx, a2, -1);
+          sexp_env_define(ctx, sexp_context_env(ctx), sym, port);
+          sexp_gc_release3(ctx);
+          pipe_wfd[s] = pfd[1];
+          fprintf(report, "O\t%d\tpipe\t%s\tok\n", lineno, a1);
+        } else fprintf(report, "O\t%d\tpipe\t%s\tERR:pipe\n", lineno, a1);
+      } else if (strcmp(op, "feed") == 0 && a2) {
+        ssize_t k = pipe_wfd[s] > 0 ? write(pipe_wfd[s], a2, 1) : -1;
+        fprintf(report, "O\t%d\tfeed\t%s\t%s\n", lineno, a1, k == 1 ? "ok" : "ERR:write");
       } else fprintf(report, "O\t%d\t%s\t%s\tERR:unknown-op\n", lineno, op, a1);
     }
     report_captured(lineno);
